@@ -195,7 +195,7 @@ def run(ctx: Ctx):
             calls = [(rng.choice(KINDS), rng.choice(("other", "other", "owner")), rng.choice(("other", "owner"))) for _ in range(burst)]
             scen.append((calls, False, burst))
         scen.append(([(rng.choice(KINDS), "other") for _ in range(burst)], True, burst))
-    reps = 3 if ctx.quick else 25
+    reps = 3 if ctx.quick else 80
     traces, metas = [], []
     for r in range(reps):
         for calls, closed, burst in scen:
